@@ -12,6 +12,8 @@
 //!   ref p= row= to= sig=                      add a reference row -> to (re-signs the row: sig)
 //!   unref p= row= to= sig= dsig=              delete the reference (re-signs the row: sig; record: dsig)
 //!   del p= row= dsig=                         delete the row (record: dsig)
+//!   unrefs p= rows=a,b tos=x,y sigs=.. dsigs=..  ONE deletion query with one reference-deletion entry per position
+//!                                             (rows distinct; entries naming an absent reference remove nothing); not in a batch
 //!   begin p= / commit p=                      the writes of p in between are ONE writer batch
 //!   compute p=                                request the daily-log recomputation and wait for it
 //!   pull dst= src= room=                      one directed synchronisation of one room
@@ -826,6 +828,111 @@ impl World {
         }
     }
 
+    /// `unrefs`: one deletion query `delete { Person { $id0 parents[$to0] } Person { $id1 parents[$to1] } .. }`.
+    /// Every re-signed source row and every deletion record is registered under the symbolic number of its entry.
+    async fn unrefs_op(&mut self, kv: &HashMap<String, String>) -> Result<String, String> {
+        let list = |k: &str| -> Option<Vec<u64>> {
+            kv.get(k)?.split(',').map(|x| x.parse::<u64>().ok()).collect()
+        };
+        let p = getn(kv, "p").ok_or("bad-op")? as usize;
+        let (rows, tos, sigs, dsigs) = (
+            list("rows").ok_or("bad-op")?,
+            list("tos").ok_or("bad-op")?,
+            list("sigs").ok_or("bad-op")?,
+            list("dsigs").ok_or("bad-op")?,
+        );
+        let n = rows.len();
+        if n == 0 || n > 4 || tos.len() != n || sigs.len() != n || dsigs.len() != n {
+            return Err("bad-op".into());
+        }
+        let (text, ps, ids) = {
+            let c = self.case.as_ref().ok_or("bad-op")?;
+            if p >= c.npeers || matches!(&c.open, Some((bp, _, _)) if *bp == p) {
+                return Err("bad-op".into());
+            }
+            let mut text = String::from("delete {");
+            let mut ps: Vec<(String, String)> = vec![];
+            let mut ids = vec![];
+            for i in 0..n {
+                if rows[..i].contains(&rows[i]) || c.ent_of_row.get(&rows[i]) != Some(&0) {
+                    return Err("bad-op".into());
+                }
+                let id = *c.rows.get(&rows[i]).ok_or("bad-op")?;
+                let tid = *c.rows.get(&tos[i]).ok_or("bad-op")?;
+                text.push_str(&format!(" Person {{ $id{} parents[$to{}] }}", i, i));
+                ps.push((format!("id{}", i), discret::verif_hooks::security::uid_encode(&id)));
+                ps.push((format!("to{}", i), discret::verif_hooks::security::uid_encode(&tid)));
+                ids.push(id);
+            }
+            text.push_str(" }");
+            (text, ps, ids)
+        };
+        self.auto_commit().await;
+        self.stats.inc("op.unrefs");
+        let psr: Vec<(&str, String)> = ps.iter().map(|(k, v)| (k.as_str(), v.clone())).collect();
+        let rx = send_deletion(&self.peers[p], &text, params(&psr)).await;
+        let res = rx.await.map_err(|e| e.to_string())?;
+        let r = match res {
+            Err(e) => format!("err:{}", err_class(&e)),
+            Ok(q) => {
+                let mut to_resign = vec![];
+                {
+                    let c = self.case.as_mut().unwrap();
+                    for node in &q.updated_nodes {
+                        let i = ids.iter().position(|x| *x == node.id).ok_or("unrefs: unknown source row")?;
+                        let (row, s) = (rows[i], sigs[i]);
+                        let vs = c.versions.entry(row).or_default();
+                        let mut violated = false;
+                        for (m, b, s2) in vs.iter() {
+                            if *m == node.mdate && *s2 != s && ((node._signature > *b) != (s > *s2)) {
+                                violated = true;
+                            }
+                        }
+                        if violated {
+                            to_resign.push((row, s, node.id));
+                        } else {
+                            c.sigs.insert(node._signature.clone(), s);
+                            vs.push((node.mdate, node._signature.clone(), s));
+                        }
+                    }
+                    for l in &q.edge_log {
+                        let i = ids.iter().position(|x| *x == l.src).ok_or("unrefs: unknown source row")?;
+                        c.sigs.entry(l.signature.clone()).or_insert(dsigs[i]);
+                    }
+                }
+                for (row, s, id) in to_resign {
+                    // same date, same value, other salt, until the signatures compare like the op file's numbers
+                    let mut kv2 = HashMap::new();
+                    kv2.insert("row".to_string(), row.to_string());
+                    kv2.insert("sig".to_string(), s.to_string());
+                    let mut ok = false;
+                    for _ in 0..1000 {
+                        self.stats.inc("sig_order_retries");
+                        let c = self.case.as_mut().unwrap();
+                        c.salt += 1;
+                        let psr = vec![
+                            ("id", discret::verif_hooks::security::uid_encode(&id)),
+                            ("salt", format!("s{}", c.salt)),
+                        ];
+                        let rx = send_mutation(&self.peers[p], "mutate { P: Person { id:$id salt:$salt } }", params(&psr)).await;
+                        let res = rx.await.map_err(|e| e.to_string())?;
+                        let (_, v) = self.register_mutation("upd", &kv2, res, false);
+                        if !v {
+                            ok = true;
+                            break;
+                        }
+                    }
+                    if !ok {
+                        return Err("cannot-order-signature".to_string());
+                    }
+                }
+                if !q.edge_log.is_empty() { "ok" } else if !q.updated_nodes.is_empty() { "ok:noref" } else { "ok:nothing" }.to_string()
+            }
+        };
+        self.stats.inc(&format!("res.unrefs.{}", r));
+        Ok(r)
+    }
+
     async fn auto_commit(&mut self) -> Option<String> {
         let c = self.case.as_mut()?;
         let (p, b, pend) = c.open.take()?;
@@ -861,6 +968,7 @@ impl World {
                 Ok("ok".into())
             }
             "new" | "upd" | "ref" | "unref" | "del" => self.write_op(kind, kv).await,
+            "unrefs" => self.unrefs_op(kv).await,
             "begin" => {
                 let p = getn(kv, "p").ok_or("bad-op")? as usize;
                 if p >= self.case.as_ref().ok_or("bad-op")?.npeers {
